@@ -81,6 +81,12 @@ add("C14", "model_checking",
     "Trusted: REF-BOARD written from the statement; frozen corners listed in refmodel/FROZEN.md (UOR drives status bits regardless of direction; FAN bit; flip-flop independent of IE). Fan rpm is not compared.",
     "DESIGN.md 3/C14")
 
+add("C07", "model_checking",
+    "explicit-state BFS over histories (17 events, depth 6 quick / 9 thorough) of the real Machine, deduplicated on a digest of all observables and hook-visible latches; at every distinct node each reset and each follow-up load is executed on a clone and compared with power-on values, an untouched twin and a fresh machine (lock-step)",
+    "cpu_reset: registers/IR/sequencer/pending latches/bus latch/ALU latch/outputs/MICR/state = power-on, RAM/inputs/board/limits/step mode untouched, timer survives and UCR is cleared (Bus-value differentials), whole-Machine equality against a machine rebuilt from public setters for clean histories; master_reset: additionally inputs, timer and the board's outputs cleared, RAM and board inputs untouched; load: RAM = image + zeros, limits applied, 6 follow-up programs run 300 edges in lock-step with a new machine.",
+    "Histories bounded by the depth; MISR and the UART send register are outside the statement and not compared.",
+    "DESIGN.md 3/C07")
+
 NOT_YET = {}
 
 def main():
